@@ -18,6 +18,9 @@ VARIABLE l            \* next line to consume (1-based)
 Report(line, verdict) ==
   IF verdict = "" THEN TRUE ELSE PrintT("FAIL " \o ToString(line) \o " " \o verdict)
 
+\* several independent findings on one line: one FAIL line each
+ReportAll(line, verdicts) == \A i \in 1..Len(verdicts) : Report(line, verdicts[i])
+
 Has(e, f) == f \in DOMAIN e
 
 AllConsumed == /\ TLCGet("stats").diameter = Len(Trace) + 1
